@@ -54,6 +54,7 @@ EXPECT = [
     ("already required by a task is refused as an alternative", "C02"),
     ("export_to_smt2 in debug mode asserts the tracking literals", "C16"),
     ("a constraint whose creation fails is removed from the problem", "C18"),
+    ("SameWorkers / DistinctWorkers bind only the selections of scheduled tasks", "C05,C06"),
 ]
 
 
